@@ -7,23 +7,27 @@
 (*            a framework to the same actions on a fixed history            *)
 (*   hostile  any other string, either parser: no panic; an error, or a     *)
 (*            machine that validates; for the current format the peak heap  *)
-(*            growth is at most Budget + 2 * len (Codec!MemoryBounded with  *)
-(*            the concrete constant)                                        *)
+(*            growth is at most budget + 2 * len (Codec!MemoryBounded with  *)
+(*            the concrete constants: budget = (2 A + 3) MAX where A is the  *)
+(*            largest ratio of in-memory size to encoded size of a state,   *)
+(*            computed by the harness from size_of::<State>() and the        *)
+(*            cheapest state encoding; it is a constant of the build, at    *)
+(*            most BudgetCap, and the bombs inflate to several times it)    *)
 (***************************************************************************)
 EXTENDS Integers, Sequences, Json, IOUtils, TLC
 
 Rec == ndJsonDeserialize(IOEnv.TRACE)
-Budget == 67108864          \* 64 MiB: (K + 1) * MAX_DECOMPRESSED_SIZE for K = 63
+BudgetCap == 134217728      \* 128 MiB: the budget the harness derives may not exceed this
 
 VARIABLES l, sid, verdicts, stats
 tvars == <<l, sid, verdicts, stats>>
 
 Good(r) ==
   CASE r.k = "rt" -> /\ ~r.panic /\ r.ok /\ r.same_string /\ r.same_name /\ r.revalidates /\ r.same_actions
-                     /\ r.peak <= Budget + 2 * r.len
+                     /\ r.budget <= BudgetCap /\ r.peak <= r.budget + 2 * r.len
     [] r.k = "hostile" -> /\ ~r.panic
                           /\ (r.result = "err" \/ (r.result = "ok" /\ r.revalidates))
-                          /\ (r.parser = "v2" => r.peak <= Budget + 2 * r.len)
+                          /\ (r.parser = "v2" => (r.budget <= BudgetCap /\ r.peak <= r.budget + 2 * r.len))
     [] OTHER -> TRUE
 
 TInit == l = 1 /\ sid = -1 /\ verdicts = {} /\ stats = [calls |-> 0, explained |-> 0]
